@@ -251,11 +251,12 @@ Proof.
 Qed.
 
 (** "... acyclic references never are": chains of whole-value references k0: ${k1}, ..., kn: target
-    (distinct one-segment keys, any length, met at any state that has seen none of them).  The head
+    (distinct one-segment keys, any length, a target that is rendered data of any kind and shape,
+    met at any state that has seen none of the keys).  The head
     renders to the target exactly when the chain fits below the documented depth of 64, and to the
     depth error otherwise: never a loop error, never a wrong value (Proofs/Chains.v). *)
 Theorem C08_acyclic_chains_render_up_to_the_depth_limit :
-  forall root target, scalar target -> forall ks st,
+  forall root target, plain_data target -> forall ks st,
     links root ks target -> Forall key_ok ks -> NoDup ks -> Forall (fun k => mem k (seen st) = false) ks ->
     exists F, forall f, F <= f ->
       match ks with
@@ -270,7 +271,7 @@ Eval cbv in "ASSUMPTIONS-OF C08_acyclic_chains_render_up_to_the_depth_limit"%str
 
 Theorem C08_chains_of_at_most_64_references_render :
   forall root target k0 ks,
-    scalar target -> links root (k0 :: ks) target -> Forall key_ok (k0 :: ks) -> NoDup (k0 :: ks) ->
+    plain_data target -> links root (k0 :: ks) target -> Forall key_ok (k0 :: ks) -> NoDup (k0 :: ks) ->
     List.length (k0 :: ks) <= RESOLVE_MAX_DEPTH ->
     exists F, forall f, F <= f -> exists st', interp f root (VStr (refs k0)) st0 = Ok (target, st').
 Proof. exact chains_within_the_limit_render. Qed.
@@ -278,7 +279,7 @@ Eval cbv in "ASSUMPTIONS-OF C08_chains_of_at_most_64_references_render"%string. 
 
 Theorem C08_longer_chains_are_depth_errors :
   forall root target k0 ks,
-    scalar target -> links root (k0 :: ks) target -> Forall key_ok (k0 :: ks) -> NoDup (k0 :: ks) ->
+    plain_data target -> links root (k0 :: ks) target -> Forall key_ok (k0 :: ks) -> NoDup (k0 :: ks) ->
     RESOLVE_MAX_DEPTH < List.length (k0 :: ks) ->
     exists F, forall f, F <= f -> exists ck sn, interp f root (VStr (refs k0)) st0 = Err (EDepth ck sn).
 Proof. exact chains_beyond_the_limit_are_depth_errors. Qed.
@@ -287,13 +288,15 @@ Eval cbv in "ASSUMPTIONS-OF C08_longer_chains_are_depth_errors"%string. Print As
 (** non-vacuity: a chain of three keys; its premises hold, and both branches occur (from the top
     level it renders; met at depth 62 it exceeds the limit) *)
 Example C08_chain_premises_hold :
-  let root := [ mk_entry (VStr "a") (VStr "${b}") false false; mk_entry (VStr "c") (VNum (NInt 7)) false false;
+  let root := [ mk_entry (VStr "a") (VStr "${b}") false false; mk_entry (VStr "c") (VSeq [VNum (NInt 7); VMap [mk_entry (VStr "x") VNull false false]]) false false;
                 mk_entry (VStr "b") (VStr "${c}") false false ] in
-  links root ["a"; "b"; "c"]%string (VNum (NInt 7)) /\ Forall key_ok ["a"; "b"; "c"]%string /\ NoDup ["a"; "b"; "c"]%string /\
-  (exists st', interp 40 root (VStr (refs "a")) st0 = Ok (VNum (NInt 7), st')) /\
+  plain_data (VSeq [VNum (NInt 7); VMap [mk_entry (VStr "x") VNull false false]]) /\
+  links root ["a"; "b"; "c"]%string (VSeq [VNum (NInt 7); VMap [mk_entry (VStr "x") VNull false false]]) /\ Forall key_ok ["a"; "b"; "c"]%string /\ NoDup ["a"; "b"; "c"]%string /\
+  (exists st', interp 40 root (VStr (refs "a")) st0 = Ok (VSeq [VNum (NInt 7); VMap [mk_entry (VStr "x") VNull false false]], st')) /\
   (exists ck sn, interp 40 root (VStr (refs "a")) (Build_rstate [] 62 []) = Err (EDepth ck sn)).
 Proof.
-  cbn zeta. split; [repeat split; reflexivity|]. split; [repeat constructor; try discriminate; reflexivity|].
+  cbn zeta. split; [cbn; repeat split; repeat constructor; cbn; intuition discriminate|].
+  split; [repeat split; reflexivity|]. split; [repeat constructor; try discriminate; reflexivity|].
   split; [repeat constructor; cbn; intuition discriminate|].
   split; [eexists; vm_compute; reflexivity | eexists; eexists; vm_compute; reflexivity].
 Qed.
